@@ -7,7 +7,7 @@ EXPLANATION = (
     "written addresses parse back to the numbers they were written from (cell, range, partial ranges), negative numbers count from the end, "
     "string forms are accepted wherever a position is; Row API negative positions agree with non-negative ones (KT layer). "
 )
-OUTSIDE = "columns of 4 or more letters (> 18277), rows > 10000 in written addresses, NamedRange re-parsing and Table.name renames (pending symdom obligations)"
+OUTSIDE = "expanding getters at repeats > 2; columns of 4 or more letters (> 18277), rows > 10000 in written addresses, NamedRange re-parsing and Table.name renames (pending symdom obligations)"
 ASSUMPTIONS = []
 TRUSTED = _T
 _ENC = ["src/odfdo/utils/coordinates.py:alpha_to_digit,digit_to_alpha,convert_coordinates,increment,translate_from_any"]
@@ -24,3 +24,19 @@ OBLIGATIONS = [
     _o("conv_cell", 23, "x <= 701, y <= 9999"), _o("conv_range", 36, "x,z <= 25; y,t <= 99"), _o("conv_partial", 29, "x,z <= 701; y,t <= 999"),
     _o("neg_index", 2, "unbounded length n >= 1, -n <= v < 0"), _o("nonneg_index", 2, "unbounded"), _o("any_str", 25, "x <= 701, y <= 999"),
 ] + [o for o in krow_obligations(1) if o.name == "krow_negative"]
+
+from props.common import KT_ENCODES, KT_STUBS  # noqa: E402
+
+
+def _k(fn, secs, bounds, tier="quick"):
+    return Obl(name=fn, module="h_kget", func=fn, timeout=max(120, secs * 4), replay="r_h_kget:" + fn, tier=tier, weight=secs, bounds=bounds,
+               encodes=["src/odfdo/table.py:Table._translate_table_coordinates*,_translate_column_coordinates*,_translate_cell_coordinates,get_value,get_cell,get_values,get_cells,get_rows,get_columns"] + KT_ENCODES[3:],
+               stubs=KT_STUBS)
+
+
+OBLIGATIONS += [
+    _k("kget_value_forms", 115, "unbounded repeats; x <= 25, y <= 98: 'B3' vs (1,2) vs 4-tuple vs negative form for get_value/get_cell"),
+    _k("kget_area_negative_cols", 80, "cell-runs in 1..2: negative column numbers in 4-tuple areas and column ranges"),
+    _k("kget_area_negative_rows", 400, "row-runs in 1..2: negative row numbers in 4-tuple areas for get_values/get_cells/get_rows", "thorough"),
+    _k("kget_columns_range_small", 20, "cell-runs in 1..2: a column range bounds get_columns on both sides"),
+]
